@@ -96,37 +96,7 @@ func c04bDeclTriggers(prop string, vals []c04Tok, css2 bool, trig map[string]str
 	if k := c04Trigger(prop, vals, css2); k != "" {
 		trig["declaration value"] = k
 	}
-	if prop == "font" {
-		var nz []c04Tok
-		for _, t := range vals {
-			if t.tt != pcss.WhitespaceToken {
-				nz = append(nz, t)
-			}
-		}
-		sizeLike := func(t c04Tok) bool {
-			switch t.tt {
-			case pcss.DimensionToken, pcss.PercentageToken, pcss.FunctionToken:
-				return true
-			case pcss.NumberToken:
-				return len(t.data) > 0 && strings.Trim(string(t.data), "+-0.eE") == ""
-			case pcss.IdentToken:
-				return c04bFontSizeBreak[strings.ToLower(string(t.data))]
-			}
-			return false
-		}
-		sized := false // a size candidate (or a slash) was seen
-		for i := 0; i+1 < len(nz); i++ {
-			if sized && nz[i].tt == pcss.IdentToken && c04bFontSizeBreak[strings.ToLower(string(nz[i].data))] && (nz[i+1].tt == pcss.IdentToken || nz[i+1].tt == pcss.StringToken) {
-				trig["declaration value"] = "K-C04B-14" // fontFamilySizeWord2
-			}
-			if sizeLike(nz[i]) || (nz[i].tt == pcss.DelimToken && string(nz[i].data) == "/") {
-				sized = true
-			}
-		}
-	}
 }
-
-var c04bFontSizeBreak = map[string]bool{"xx-small": true, "x-small": true, "small": true, "medium": true, "large": true, "x-large": true, "xx-large": true, "smaller": true, "larger": true, "inherit": true, "initial": true, "unset": true}
 
 // c04bCommentGlue: a comment directly between two non-white-space tokens (decided on the lexer tokens of the source,
 // comments included) inside the block of an at-rule the dependency parser does not know (raw), or in a selector /
@@ -205,21 +175,6 @@ func c04bTriggers(evs []c04Event, css2 bool) map[string]string {
 	trig := map[string]string{}
 	for _, e := range evs {
 		switch e.gt {
-		case pcss.QualifiedRuleGrammar, pcss.BeginRulesetGrammar:
-			inAttr := false
-			for i, t := range e.vals {
-				if t.tt == pcss.LeftBracketToken {
-					inAttr = true
-				} else if t.tt == pcss.RightBracketToken {
-					inAttr = false
-				} else if inAttr && t.tt == pcss.StringToken && len(t.data) > 2 && c04IsIdent(t.data[1:len(t.data)-1]) && i > 0 {
-					p := e.vals[i-1]
-					matcher := p.tt == pcss.DelimToken && string(p.data) == "=" || p.tt == pcss.IncludeMatchToken || p.tt == pcss.DashMatchToken || p.tt == pcss.PrefixMatchToken || p.tt == pcss.SuffixMatchToken || p.tt == pcss.SubstringMatchToken
-					if !matcher {
-						trig["selector"] = "K-C04B-15" // attrStringNotValue
-					}
-				}
-			}
 		case pcss.DeclarationGrammar:
 			c04bDeclTriggers(string(e.data), e.vals, css2, trig)
 		case pcss.BeginAtRuleGrammar:
